@@ -18,6 +18,7 @@ struct ApiGroup {
 struct BoxOpts {
   std::vector<uint64_t> Ns = {2, 4, 8, 16, 32};
   uint64_t max_size = 3;       // limb counts 0..max_size
+  std::vector<uint64_t> extra_sizes = {6, 11};  // additional (larger) limb counts, combined with the small ones
   uint64_t vmp_max_dim = 3;    // nrows, ncols in 1..vmp_max_dim
   uint64_t vmp_max_size = 4;   // a_size, res_size in 0..vmp_max_size
   bool all_strides = false;    // {N, N+1} or {N, N+1, N+3, 2N+5}
@@ -55,6 +56,8 @@ inline void run_group(const ApiGroup& G, const BoxOpts& o, const std::function<v
   std::vector<uint64_t> strides = o.all_strides ? std::vector<uint64_t>{N, N + 1, N + 3, 2 * N + 5} : std::vector<uint64_t>{N, N + 1};
   std::vector<uint64_t> one = {N};
   const uint64_t S = o.max_size;
+  std::vector<uint64_t> SZ; for (uint64_t i = 0; i <= S; ++i) SZ.push_back(i); for (uint64_t e : o.extra_sizes) SZ.push_back(e);
+  std::vector<uint64_t> SZ0 = {0};
   switch (G.fam) {
     case F_VEC: {
       const VecOp& op = VECOPS[G.sub];
@@ -63,7 +66,7 @@ inline void run_group(const ApiGroup& G, const BoxOpts& o, const std::function<v
       const std::vector<uint64_t>& rsls = op.res_big ? one : strides;
       const std::vector<uint64_t>& asls = (op.a_big || op.nin < 1) ? one : strides;
       const std::vector<uint64_t>& bsls = (op.b_big || op.nin < 2) ? one : strides;
-      for (uint64_t rs = 0; rs <= S; ++rs) for (uint64_t as = 0; as <= (op.nin >= 1 ? S : 0); ++as) for (uint64_t bs = 0; bs <= (op.nin >= 2 ? S : 0); ++bs)
+      for (uint64_t rs : SZ) for (uint64_t as : (op.nin >= 1 ? SZ : SZ0)) for (uint64_t bs : (op.nin >= 2 ? SZ : SZ0))
         for (uint64_t rsl : rsls) for (uint64_t asl : asls) for (uint64_t bsl : bsls) for (int64_t p : ps) {
           VecShape s; s.N = N; s.rs = rs; s.as = as; s.bs = bs; s.rsl = rsl; s.asl = asl; s.bsl = bsl; s.p = p;
           ApiCase c = gen_vecop(mod, op, s, mtname(t), cfg);
@@ -73,9 +76,9 @@ inline void run_group(const ApiGroup& G, const BoxOpts& o, const std::function<v
     }
     case F_NORM: {
       for (uint64_t k : o.ks)
-        for (uint64_t rs = 0; rs <= S + 1; ++rs) for (uint64_t rsl : strides) {
+        for (uint64_t rs : SZ) for (uint64_t rsl : strides) {
           if (G.sub < 2) {
-            for (uint64_t as = 0; as <= S + 1; ++as) for (uint64_t asl : (G.sub == 0 ? strides : one)) {
+            for (uint64_t as : SZ) for (uint64_t asl : (G.sub == 0 ? strides : one)) {
               NormShape s; s.N = N; s.k = k; s.rs = rs; s.rsl = rsl; s.as = as; s.asl = asl; s.variant = G.sub; s.dataset = (int)((rs + as) & 1);
               ApiCase c = gen_normalize(mod, s, cfg);
               fn(c);
@@ -91,7 +94,7 @@ inline void run_group(const ApiGroup& G, const BoxOpts& o, const std::function<v
       break;
     }
     case F_DFT: {
-      for (uint64_t rs = 0; rs <= S; ++rs) for (uint64_t as = 0; as <= S; ++as)
+      for (uint64_t rs : SZ) for (uint64_t as : SZ)
         for (uint64_t asl : (G.sub == 0 ? std::vector<uint64_t>{N, N + 1, N + 3} : one)) {
           DftShape s; s.N = N; s.rs = rs; s.as = as; s.asl = asl; s.variant = G.sub;
           ApiCase c = gen_dft(mod, t, s, cfg);
@@ -101,7 +104,7 @@ inline void run_group(const ApiGroup& G, const BoxOpts& o, const std::function<v
     }
     case F_SVP_PREPARE: { ApiCase c = gen_svp_prepare(mod, N, cfg); fn(c); break; }
     case F_SVP_APPLY: {
-      for (uint64_t rs = 0; rs <= S; ++rs) for (uint64_t as = 0; as <= S; ++as) for (uint64_t asl : {N, N + 3}) {
+      for (uint64_t rs : SZ) for (uint64_t as : SZ) for (uint64_t asl : {N, N + 3}) {
         SvpShape s; s.N = N; s.rs = rs; s.as = as; s.asl = asl;
         ApiCase c = gen_svp_apply(mod, s, cfg);
         fn(c);
@@ -110,6 +113,9 @@ inline void run_group(const ApiGroup& G, const BoxOpts& o, const std::function<v
     }
     case F_SMALL: { ApiCase c = gen_small_product(mod, N, cfg); fn(c); break; }
     case F_VMP: {
+      if (G.sub != 0) for (auto& q : std::vector<std::vector<uint64_t>>{{7, 9, 8, 9}, {9, 7, 10, 5}, {1, 12, 1, 11}, {12, 1, 13, 1}, {8, 8, 8, 7}}) {
+        VmpShape s; s.N = N; s.nrows = q[0]; s.ncols = q[1]; s.as = q[2]; s.rs = q[3]; s.asl = N + 3; s.variant = G.sub; ApiCase c = gen_vmp(mod, s, cfg); fn(c);
+      }
       for (uint64_t nr = 1; nr <= o.vmp_max_dim; ++nr) for (uint64_t nc = 1; nc <= o.vmp_max_dim; ++nc) {
         if (G.sub == 0) { VmpShape s; s.N = N; s.nrows = nr; s.ncols = nc; s.variant = 0; ApiCase c = gen_vmp(mod, s, cfg); fn(c); continue; }
         for (uint64_t as = 0; as <= o.vmp_max_size; ++as) for (uint64_t rs = 0; rs <= o.vmp_max_size; ++rs)
